@@ -11,6 +11,8 @@ import Mhd.Proofs.PoolInv
 import Mhd.Proofs.NoSpace
 import Mhd.Proofs.NoSpaceConn
 import Mhd.Proofs.PoolRzInv
+import Mhd.Proofs.ReplyBounds
+import Mhd.Gen.ReplyBounds
 
 namespace Mhd.C08
 open Mhd.Pool
@@ -208,6 +210,83 @@ example : Mhd.PoolRz.WF ⟨16, true⟩ (Mhd.PoolRz.run ⟨16, true⟩ (Mhd.PoolR
     [.alloc 10 false, .alloc 0 false, .alloc 5 true, .realloc (some 0) 30]) := by
   apply Mhd.PoolRz.run_wf <;> simp [Op.Valid, W, A, Mhd.Gen.Pool.alignSize, Mhd.PoolRz.Var.Valid, Mhd.PoolRz.Var.Sound]
 
+/-! #### the variants that exist in the code as it is — no hypothesis left
+
+`Var.Extracted v`: `v` is the ordinary build or the red-zone build with the regenerated red-zone size and the
+regenerated wrap-test probe.  Both are valid and sound (`rz_extracted`; `decide` over the regenerated constants — with
+the unsound wrap test of finding F38 this proof fails, the check then reports the proof obligation). -/
+
+/-- the two builds of memorypool.c, as extracted -/
+def Var.Extracted (v : Var) : Prop :=
+  v = ⟨0, Mhd.Gen.Pool.sizeWrapByCompare⟩ ∨ v = ⟨Mhd.Gen.Pool.redZoneAsan, Mhd.Gen.Pool.sizeWrapByCompare⟩
+
+theorem rz_extracted (v : Var) (hx : Var.Extracted v) : v.Valid ∧ v.Sound := by
+  have hs : Mhd.Gen.Pool.sizeWrapByCompare = true := by decide
+  have hr : Mhd.Gen.Pool.redZoneAsan = A := by decide
+  rcases hx with rfl | rfl
+  · exact ⟨Or.inl rfl, Or.inr rfl⟩
+  · exact ⟨Or.inr hr, Or.inl hs⟩
+
+theorem pool_step_wf (v : Var) (hx : Var.Extracted v) (s : Mhd.PoolRz.St) (o : Op) (h : Mhd.PoolRz.WF v s)
+    (ho : o.Valid) : Mhd.PoolRz.WF v (Mhd.PoolRz.step v s o).1 :=
+  rz_step_wf v (rz_extracted v hx).1 (rz_extracted v hx).2 s o h ho
+
+theorem pool_run_wf (v : Var) (hx : Var.Extracted v) (allocSize : Nat) (ha : allocSize % A = 0)
+    (hsz : allocSize < 2 ^ 62) (ops : List Op) (ho : ∀ o ∈ ops, o.Valid) :
+    Mhd.PoolRz.WF v (Mhd.PoolRz.run v (Mhd.PoolRz.St.init allocSize) ops) :=
+  rz_run_wf v (rz_extracted v hx).1 (rz_extracted v hx).2 allocSize ha hsz ops ho
+
+theorem pool_step_no_fault (v : Var) (hx : Var.Extracted v) (s : Mhd.PoolRz.St) (o : Op)
+    (h : Mhd.PoolRz.WF v s) (ho : o.Valid) : (Mhd.PoolRz.step v s o).2 ≠ .fault :=
+  rz_step_no_fault v (rz_extracted v hx).1 (rz_extracted v hx).2 s o h ho
+
+theorem pool_block_in_bounds_disjoint (v : Var) (hx : Var.Extracted v) (s : Mhd.PoolRz.St) (o : Op)
+    (h : Mhd.PoolRz.WF v s) (ho : o.Valid) (off len : Nat) (hr : (Mhd.PoolRz.step v s o).2 = .block off len) :
+    off % A = 0 ∧ off + len ≤ s.p.size ∧
+    ∃ b ∈ (Mhd.PoolRz.step v s o).1.live, b.off = off ∧ b.len = len ∧
+      ∀ c ∈ (Mhd.PoolRz.step v s o).1.live, c ≠ b → Disjoint b c :=
+  rz_block_in_bounds_disjoint v (rz_extracted v hx).1 (rz_extracted v hx).2 s o h ho off len hr
+
+theorem pool_refused_unchanged (v : Var) (hx : Var.Extracted v) (s : Mhd.PoolRz.St) (o : Op)
+    (h : Mhd.PoolRz.WF v s) (ho : o.Valid)
+    (hr : (Mhd.PoolRz.step v s o).2 = .null ∨ ∃ n, (Mhd.PoolRz.step v s o).2 = .nullNeed n) :
+    (Mhd.PoolRz.step v s o).1 = s :=
+  rz_refused_unchanged v (rz_extracted v hx).1 (rz_extracted v hx).2 s o h ho hr
+
+theorem pool_others_untouched (v : Var) (hx : Var.Extracted v) (s : Mhd.PoolRz.St) (o : Op)
+    (h : Mhd.PoolRz.WF v s) (ho : o.Valid) (hnr : ¬ o.isReset) (j : Nat) (b : Blk) (hb : s.live[j]? = some b)
+    (hj : o.target ≠ some j) :
+    readAt (Mhd.PoolRz.step v s o).1.p.mem b.off b.len = readAt s.p.mem b.off b.len :=
+  rz_others_untouched v (rz_extracted v hx).1 (rz_extracted v hx).2 s o h ho hnr j b hb hj
+
+theorem pool_realloc_preserves (v : Var) (hx : Var.Extracted v) (s : Mhd.PoolRz.St) (i n : Nat)
+    (h : Mhd.PoolRz.WF v s) (hn : n < W) (b : Blk) (hb : s.live[i]? = some b) (hf : b.front = true) (off len : Nat)
+    (hr : (Mhd.PoolRz.step v s (.realloc (some i) n)).2 = .block off len) :
+    len = n ∧ readAt (Mhd.PoolRz.step v s (.realloc (some i) n)).1.p.mem off (min b.len n)
+              = readAt s.p.mem b.off (min b.len n) :=
+  rz_realloc_preserves v (rz_extracted v hx).1 (rz_extracted v hx).2 s i n h hn b hb hf off len hr
+
+theorem pool_reset_keeps (v : Var) (hx : Var.Extracted v) (s : Mhd.PoolRz.St) (i copy n : Nat) (h : Mhd.PoolRz.WF v s)
+    (b : Blk) (hb : s.live[i]? = some b) (hc : copy ≤ b.len) (hcn : copy ≤ n) (hn : n ≤ s.p.size)
+    (hrz : roundUp n + v.rz ≤ s.p.size) :
+    let s' := (Mhd.PoolRz.step v s (.reset (some i) copy n)).1
+    readAt s'.p.mem 0 copy = readAt s.p.mem b.off copy ∧
+    s'.p.end_ = s'.p.size ∧ s'.p.size = s.p.size ∧ s'.p.pos = Mhd.PoolRz.roundRz v n ∧ s'.live = [⟨0, n, true⟩] :=
+  rz_reset_keeps v (rz_extracted v hx).1 s i copy n h b hb hc hcn hn hrz
+
+theorem pool_alloc_red_zone (v : Var) (hx : Var.Extracted v) (s : Mhd.PoolRz.St) (n : Nat) (fe : Bool)
+    (h : Mhd.PoolRz.WF v s) (hn : n < W) (off len : Nat) (hr : (Mhd.PoolRz.step v s (.alloc n fe)).2 = .block off len) :
+    len = n ∧ (fe = false → off + roundUp n + v.rz ≤ (Mhd.PoolRz.step v s (.alloc n fe)).1.p.pos) ∧
+    (fe = true → off + roundUp n + v.rz ≤ s.p.end_) :=
+  rz_alloc_red_zone v (rz_extracted v hx).1 (rz_extracted v hx).2 s n fe h hn off len hr
+
+/-- Non-vacuity: the red-zone build as extracted, a reachable state -/
+example : Mhd.PoolRz.WF ⟨Mhd.Gen.Pool.redZoneAsan, Mhd.Gen.Pool.sizeWrapByCompare⟩
+    (Mhd.PoolRz.run ⟨Mhd.Gen.Pool.redZoneAsan, Mhd.Gen.Pool.sizeWrapByCompare⟩ (Mhd.PoolRz.St.init 128)
+      [.alloc 10 false, .alloc 0 false, .alloc 5 true, .realloc (some 0) 30]) := by
+  apply pool_run_wf _ (Or.inr rfl) <;> simp [Op.Valid, W, A, Mhd.Gen.Pool.alignSize]
+
+
 end RedZone
 
 /-! ### "a request that does not fit is refused with 413/414/431 or a close"
@@ -344,5 +423,47 @@ def exRun431 : Mhd.ArenaBound.TR := Mhd.ArenaBound.runT (exCfg .none) (Mhd.Arena
     [[71, 69, 84, 32, 47, 32, 72, 84, 84, 80, 47, 49, 46, 49, 13, 10, 88, 58, 32], List.replicate 300 118]
 example : (exRun431.log, Mhd.ArenaBound.isNoSpace exRun431.x.phase) = (some (Mhd.ArenaBound.Refusal.status 431), true) := by
   decide +kernel
+
+/-! ### "… refused rather than overflowing" for the REPLY head
+
+`build_header_response` / `add_user_headers` fill the write buffer — the last front block of the arena, directly in
+front of the blocks allocated from the arena's end.  `Mhd.ReplyBounds.headActs` lists every space check and every
+write of the builder (one level finer than C04's `headSegs`: the application's `Connection:` header with MHD's
+token merged in is three writes under two checks); `runActs` performs the writes unchecked and records the highest
+index stored.  `recheck` is the regenerated behaviour probe `Mhd.Gen.ReplyBounds.mergeTokenRechecksLine`. -/
+
+open Mhd.ReplyBounds Mhd.Reply Mhd.Resp in
+/-- **Every append of the reply-head builder is covered by a check in front of it**: for every connection state,
+    response object, status code 100…999, Date string (≤ 30 bytes; `get_date_str` gives 29), keep-alive decision,
+    buffer size and start state inside the buffer — no byte is stored at an index `≥ bufSize`, neither when the head
+    is built nor when the builder refuses (then the bytes stored so far stay below `bufSize` as well). -/
+theorem header_build_in_bounds (c : Conn) (r : Resp) (rcode : Nat) (icy : Bool) (date : Option Mhd.ReplyStr.Bytes) (ka : KA) (props : Props)
+    (h1 : 100 ≤ rcode) (h2 : rcode ≤ 999) (hd : ∀ d, date = some d → d.length ≤ 30) (bufSize : Nat) (w : WB)
+    (hw : w.hw ≤ bufSize) :
+    (runActs bufSize (headActs Mhd.Gen.ReplyBounds.mergeTokenRechecksLine c r rcode icy date ka props) w).1.hw ≤ bufSize := by
+  have hf : Mhd.Gen.ReplyBounds.mergeTokenRechecksLine = true := by decide
+  rw [hf]
+  exact headActs_inB c r rcode icy date ka props h1 h2 hd bufSize w hw
+
+open Mhd.ReplyBounds Mhd.Reply Mhd.Resp in
+/-- the fine model refuses exactly when C04's (tied) `headSegs` model refuses and builds the same bytes -/
+theorem header_build_refines_c04 (c : Conn) (r : Resp) (rcode : Nat) (icy : Bool) (date : Option Mhd.ReplyStr.Bytes) (ka : KA)
+    (props : Props) (bufSize : Nat) :
+    runB bufSize (headActs true c r rcode icy date ka props) [] = runSegs bufSize (headSegs c r rcode icy date ka props) [] :=
+  headActs_refines c r rcode icy date ka props bufSize
+
+/-- the footer block of a chunked reply stays inside its buffer -/
+theorem footer_build_in_bounds (r : Mhd.Resp.Resp) (bufSize : Nat) (b : Mhd.ReplyStr.Bytes)
+    (h : Mhd.Reply.buildFooter r bufSize = some b) : b.length ≤ bufSize :=
+  Mhd.ReplyBounds.footer_in_bounds r bufSize b h
+
+/-- **Witness** that the covering check is needed: with a check that covers only the token, `Connection: xxxxxxxx`
+    + `close, ` into a 24-byte buffer stores bytes up to index 28; with the covering check the builder refuses after
+    `Connection: ` (12 bytes). -/
+theorem header_build_unchecked_merge_overflows :
+    (Mhd.ReplyBounds.runActs 24 (Mhd.ReplyBounds.userFieldActs false Mhd.Resp.sConnection Mhd.Resp.sCloseSep (List.replicate 8 120)) ⟨[], 0⟩).1.hw = 29 ∧
+    (Mhd.ReplyBounds.runActs 24 (Mhd.ReplyBounds.userFieldActs true Mhd.Resp.sConnection Mhd.Resp.sCloseSep (List.replicate 8 120)) ⟨[], 0⟩)
+      = (⟨Mhd.Resp.sConnection ++ Mhd.Reply.colonSp, 12⟩, false) :=
+  Mhd.ReplyBounds.merge_without_recheck_overflows
 
 end Mhd.C08
